@@ -13,10 +13,22 @@
 //!  * `ring`        sum / product modulo (X^N+1, t) (naive) of all pairs of unit vectors x {1,t-1}^2 (N <= 32) + generic/extreme pairs
 //!  * `galois`      every step s in -(N/2-1)..N/2-1, the column swap, every odd element 1..2N-1, get_elts_all
 //!  * `polynomial`  encode_polynomial / decode_polynomial: {0,1,t-1,t,t+1,2^64-1} at every position, lengths 0..N, too-long refused
+//!
+//! Production sizes (N = 128..8192 in BOTH tiers; structured families, O(N) library calls per parameter set, O(N) reference per call):
+//!  * `big_slots`      every unit slot (closed form + decode), the generic polynomial of every stored length 1..N decoded against the
+//!                     running sum of its monomials, 9 vectors evaluated at all roots through the fast reference transform
+//!  * `big_lengths`    every input length 0..N, encode / decode into fresh and used destinations
+//!  * `big_galois`     every step: get_elt_from_step == 3^(s mod N/2) mod 2N, applied to a unit-slot plaintext; every odd element on
+//!                     the all-distinct plaintext; get_elts_from_steps, get_elts_all
+//!  * `big_ring`       sums / products (fast reference product) of 81 generic pairs and of unit slots (boundary slots; all slots up
+//!                     to N = 256, thorough 8192)
+//!  * `big_polynomial` coefficient encoding of every length 0..N, fresh and used destinations
+//!  * `primes`         N = 8, 16 below chains of 1..18 coefficient primes: all of the above alphabets
 
 use crate::engine::*;
 use crate::he::*;
 use crate::refmodel::bigu::{add_mod, inv_mod_u64, is_prime_u64, mul_mod, pow_mod, primes_1_mod};
+use crate::refmodel::ntt::{fast_intt, fast_ntt};
 use crate::refmodel::poly::{bit_reverse, min_primitive_root_2n, pad, padd, peval, pgalois, pmul};
 use heathcliff::*;
 use serde::{Deserialize, Serialize};
@@ -29,8 +41,13 @@ pub fn describe(rep: &Report) {
          20-, 40-, 60-bit prime = 1 mod 2N (polynomial section: + t = 7, 16, 2^59 without batching). Each case loops over the whole \
          alphabet of its section (unit vectors, monomials, lengths, steps, Galois elements, positions x values); \
          traces_validated_against_impl counts the individual library calls compared with the reference. \
-         non-trivial = at least one call compared on a vector with a non-zero entry.",
+         non-trivial = at least one call compared on a vector with a non-zero entry. \
+         big_* sections: N = 2^7..2^13 in both tiers x (BFV, smallest batching t), (BGV, 60-bit t) (thorough: all four combinations), the \
+         index set of a case (unit slots, stored lengths, input lengths, steps, elements) is a contiguous chunk `part` of `parts`; \
+         primes: N in {8,16} x 1..18 sixty-bit coefficient primes.",
     );
+    rep.assume("big_* sections: the product modulo (X^N+1, t) and the evaluation at all N slot roots use the O(N log N) reference transform of refmodel::ntt (validated against the by-definition transform up to N = 256 in the self-test, against the naive product on one pair per parameter set up to N = 2048 (thorough 8192) and against Horner's rule at the boundary slots)");
+    rep.assume("constant multiplications of the closed forms use a quotient-precomputed product that is compared with the 128-bit one in every case (setup)");
     rep.assume("slots are defined independently as evaluations at psi^(+-3^i) with psi = plain_ntt_tables().root(); psi itself is only checked to be a primitive 2N-th root (psi^N = -1) and, for t < 2^21, the minimal one");
     rep.assume("slot values are < t (BatchEncoder::encode does not reduce its input; SEAL validates this in debug builds only)");
     rep.assume("generic vectors are a fixed function of (seed, N, t, index); beyond the stated exhaustive sets vectors are unit / monomial / generic / extreme, not all of Z_t^N");
@@ -48,6 +65,9 @@ pub struct Case {
     pub part: usize,
     #[serde(default = "one")]
     pub parts: usize,
+    /// big_ring only: every unit slot (instead of the boundary slots) is multiplied with the generic vector
+    #[serde(default)]
+    pub full: bool,
 }
 
 fn one() -> usize {
@@ -108,7 +128,7 @@ fn specs(kmin: u32, kmax: u32, extra_ts: &[u64], parts_of: fn(usize) -> usize) -
         for t in ts {
             for scheme in [Scheme::BFV, Scheme::BGV] {
                 for part in 0..parts {
-                    v.push(Case { spec: ParamSpec::new(scheme, n, q.clone(), t), prefix: vec![], part, parts });
+                    v.push(Case { spec: ParamSpec::new(scheme, n, q.clone(), t), prefix: vec![], part, parts, full: false });
                 }
             }
         }
@@ -136,6 +156,60 @@ fn parts_polynomial(n: usize) -> usize {
     }
 }
 
+/// production-size sections: N = 2^kmin..2^kmax (ascending: the cheap cases first), per N the combinations
+/// (BFV, smallest batching t), (BGV, 60-bit t) [+ (BGV, smallest t), (BFV, 60-bit t) if `four`] + (scheme alternating, t) for the extra t
+/// `thin` = 1 / 2: from N = 4096 on only one of the two combinations per N, (BGV, 60-bit) / (BFV, smallest) at 4096 and the other at 8192
+fn big_specs(kmin: u32, kmax: u32, four: bool, extra_ts: &[u64], parts_of: fn(usize) -> usize, full_upto: usize, thin: u32) -> Vec<Case> {
+    let mut v = vec![];
+    for k in kmin..=kmax {
+        let n = 1usize << k;
+        let (q, t60) = q_and_t60(n);
+        let tmin = smallest_batching_prime(n);
+        let mut combos = vec![(Scheme::BFV, tmin), (Scheme::BGV, t60)];
+        if four {
+            combos.extend([(Scheme::BGV, tmin), (Scheme::BFV, t60)]);
+        } else if thin > 0 && n >= 4096 {
+            combos = vec![combos[((k + thin) % 2) as usize]];
+        }
+        for (i, &t) in extra_ts.iter().enumerate() {
+            combos.push((if i % 2 == 0 { Scheme::BFV } else { Scheme::BGV }, t));
+        }
+        let full = n <= full_upto;
+        let parts = if full { (n / 32).clamp(1, 128) } else { parts_of(n).max(1) };
+        for (scheme, t) in combos {
+            for part in 0..parts {
+                v.push(Case { spec: ParamSpec::new(scheme, n, q.clone(), t), prefix: vec![], part, parts, full });
+            }
+        }
+    }
+    v
+}
+
+/// 64 items per case up to N = 2048, 32 cases beyond (the context of a large degree is not free)
+fn parts_big(n: usize) -> usize {
+    (n / 64).clamp(1, 32)
+}
+
+fn parts_big_ring(n: usize) -> usize {
+    (n / 64).clamp(1, 16)
+}
+
+/// chains of 1..=18 sixty-bit coefficient primes at N = 8 and 16; t = the smallest batching prime (BFV) and the 19th largest
+/// 60-bit prime = 1 mod 2N (BGV)
+fn prime_chain_specs() -> Vec<Case> {
+    let mut v = vec![];
+    for n in [8usize, 16] {
+        let p = primes_1_mod(2 * n as u64, 60, 19);
+        assert_eq!(p.len(), 19);
+        for count in 1..=18usize {
+            for (scheme, t) in [(Scheme::BFV, smallest_batching_prime(n)), (Scheme::BGV, p[18])] {
+                v.push(Case { spec: ParamSpec::new(scheme, n, p[..count].to_vec(), t), prefix: vec![], part: 0, parts: 1, full: false });
+            }
+        }
+    }
+    v
+}
+
 // ---------------------------------------------------------------------------------------------
 // environment of one case
 // ---------------------------------------------------------------------------------------------
@@ -151,6 +225,8 @@ struct Env {
     psi_min_checked: bool,
     /// r_i as defined in the module comment (empty without batching)
     roots: Vec<u64>,
+    /// r_i = psi^exps[i]: 3^i mod 2N for row 0, 2N - 3^i mod 2N for row 1
+    exps: Vec<usize>,
 }
 
 fn is_batching_t(n: usize, t: u64) -> bool {
@@ -185,7 +261,12 @@ fn setup(c: &Case, seed: u64, section: &str) -> Result<Env, CaseOut> {
     if be.simd_encoding_supported() != want {
         return Err(CaseOut::fail("setup:simd_encoding_supported:wrong", format!("{want}"), format!("{}", !want)));
     }
-    let (mut psi, mut psi_min_checked, mut roots) = (0, false, vec![]);
+    if t >= 2 {
+        if let Err(m) = mulc_selfcheck(t) {
+            return Err(CaseOut::fail("setup:reference:constant-multiplier", "the quotient-precomputed product equals the 128-bit one", m));
+        }
+    }
+    let (mut psi, mut psi_min_checked, mut roots, mut exps) = (0, false, vec![], vec![]);
     if want {
         psi = cd.plain_ntt_tables().root();
         if psi == 0 || psi >= t || pow_mod(psi, n as u64, t) != t - 1 {
@@ -205,14 +286,17 @@ fn setup(c: &Case, seed: u64, section: &str) -> Result<Env, CaseOut> {
         let m = 2 * n as u64;
         let h = n / 2;
         roots = vec![0; n];
+        exps = vec![0; n];
         let mut e = 1u64;
         for i in 0..h {
             roots[i] = pow_mod(psi, e, t);
             roots[h + i] = pow_mod(psi, m - e, t);
+            exps[i] = e as usize;
+            exps[h + i] = (m - e) as usize;
             e = e * 3 % m;
         }
     }
-    Ok(Env { ctx, be, n, t, sch: c.spec.scheme, batching: want, psi, psi_min_checked, roots })
+    Ok(Env { ctx, be, n, t, sch: c.spec.scheme, batching: want, psi, psi_min_checked, roots, exps })
 }
 
 fn mk_plain(coeffs: &[u64]) -> Plaintext {
@@ -334,6 +418,103 @@ fn eval_checked(e: &Env, sec: &str, class: &str, p: &Plaintext, v: &[u64]) -> Re
     Ok(())
 }
 
+/// x -> x * w mod t for a fixed w < t < 2^63 with the quotient w * 2^64 / t precomputed (the inner loops of the closed forms multiply
+/// N times by the same constant; a 128-bit remainder per product is ten times slower). With q = floor(floor(w 2^64 / t) x / 2^64) one
+/// has floor(w x / t) - 1 <= q <= floor(w x / t), hence w x - q t lies in [0, 2t). Compared with `mul_mod` in `setup` of every case.
+#[derive(Clone, Copy)]
+struct MulC {
+    w: u64,
+    wq: u64,
+}
+
+impl MulC {
+    fn new(w: u64, t: u64) -> Self {
+        MulC { w, wq: (((w as u128) << 64) / t as u128) as u64 }
+    }
+    fn mul(self, x: u64, t: u64) -> u64 {
+        let q = ((self.wq as u128 * x as u128) >> 64) as u64;
+        let r = self.w.wrapping_mul(x).wrapping_sub(q.wrapping_mul(t));
+        if r >= t {
+            r - t
+        } else {
+            r
+        }
+    }
+}
+
+/// MulC == mul_mod on 16 constants x 40 arguments (extremes and generic)
+fn mulc_selfcheck(t: u64) -> Result<(), String> {
+    let mut al: Vec<u64> = vec![0, 1, 2, t / 2, t / 2 + 1, t - 2, t - 1];
+    al.extend((0..33u64).map(|i| h64(&("c11-mulc", t, i)) % t));
+    al.retain(|&x| x < t);
+    for &w in &al[..16.min(al.len())] {
+        let c = MulC::new(w, t);
+        for &x in &al {
+            if c.mul(x, t) != mul_mod(x, w, t) {
+                return Err(format!("{x} * {w} mod {t}: {} vs {}", c.mul(x, t), mul_mod(x, w, t)));
+            }
+        }
+    }
+    Ok(())
+}
+
+/// a + b mod t for a, b < t < 2^63
+fn add_lt(a: u64, b: u64, t: u64) -> u64 {
+    let s = a + b;
+    if s >= t {
+        s - t
+    } else {
+        s
+    }
+}
+
+/// the indices below `len` next to a block / table boundary: 0, 1, 2^k - 1, 2^k, 2^k + 1 (2^k >= 8), len/2 - 1, len/2, len/2 + 1, len - 2, len - 1
+fn boundary(len: usize) -> Vec<usize> {
+    let mut v = vec![0usize, 1, len / 2, len / 2 + 1];
+    for x in [len / 2, len.saturating_sub(1), len] {
+        if x >= 1 {
+            v.push(x - 1);
+        }
+    }
+    let mut p = 8usize;
+    while p <= len {
+        v.extend([p - 1, p, p + 1]);
+        p *= 2;
+    }
+    v.retain(|&x| x < len);
+    v.sort();
+    v.dedup();
+    v
+}
+
+/// the polynomial evaluated at every slot root through the fast reference transform (out[i] = a(psi^(2 brv(i) + 1)), so the value
+/// at psi^x sits at index brv((x-1)/2)) == v (padded); the boundary slots are evaluated by Horner's rule as well
+fn eval_fast_checked(e: &Env, sec: &str, class: &str, p: &Plaintext, v: &[u64]) -> Result<(), CaseOut> {
+    let f = fast_ntt(p.data(), e.psi, e.t);
+    slots_of_transform_checked(e, sec, class, p, &f, v, true)
+}
+
+/// `f` = fast reference transform of the polynomial `p`: the values at the slot roots == v (padded)
+fn slots_of_transform_checked(e: &Env, sec: &str, class: &str, p: &Plaintext, f: &[u64], v: &[u64], horner_too: bool) -> Result<(), CaseOut> {
+    let (n, t) = (e.n, e.t);
+    let vp = pad(v, n);
+    let bits = n.trailing_zeros();
+    let bd = if horner_too { boundary(n) } else { vec![] };
+    for i in 0..n {
+        let x = f[bit_reverse((e.exps[i] - 1) / 2, bits)];
+        let horner = if bd.binary_search(&i).is_ok() { peval(p.data(), e.roots[i], t) } else { x };
+        if x != vp[i] || horner != vp[i] {
+            let (row, col) = (i / (n / 2).max(1), i % (n / 2).max(1));
+            return Err(CaseOut::fail(
+                format!("{sec}:encode:{class}:wrong"),
+                format!("{:?} N={n} t={t} psi={}: encode({}) evaluated at the root of slot {i} (row {row}, column {col}: {}) = {}", e.sch, e.psi, fv(v), e.roots[i], vp[i]),
+                format!("{x} (fast transform){}; polynomial {}", if bd.binary_search(&i).is_ok() { format!(" / {horner} (Horner)") } else { String::new() }, fv(p.data())),
+            ));
+        }
+    }
+    Ok(())
+}
+
 macro_rules! tri {
     ($e:expr) => {
         match $e {
@@ -352,13 +533,22 @@ fn outcome(e: &Env, sec: &str, extra: u64) -> u64 {
 // ---------------------------------------------------------------------------------------------
 
 fn check_slots(c: &Case, seed: u64) -> CaseOut {
-    let sec = "slots";
+    check_slots_in(c, seed, "slots", false)
+}
+
+/// `lite` (large N): one value per unit vector / monomial (alternating 1 and t-1), the generic polynomial of every stored length
+/// k+1 decoded against the running sum of its monomials, and the generic / extreme vectors evaluated through the fast reference
+/// transform (all N slots) plus Horner at the boundary slots.
+fn check_slots_in(c: &Case, seed: u64, sec: &str, lite: bool) -> CaseOut {
     let e = tri!(setup(c, seed, sec));
+    if !e.batching {
+        return CaseOut::skip("no batching for this plain modulus");
+    }
     let (n, t) = (e.n, e.t);
     let mut steps = 0u64;
     if c.first() && (e.be.slot_count() != n || e.be.row_count() != 2 || e.be.column_count() != n / 2 || e.be.get_plain_modulus() != t) {
         fail!(
-            "slots:shape",
+            format!("{sec}:shape"),
             format!("slot_count {n}, 2 rows, {} columns, plain modulus {t}", n / 2),
             format!("{} / {} / {} / {}", e.be.slot_count(), e.be.row_count(), e.be.column_count(), e.be.get_plain_modulus())
         );
@@ -368,19 +558,25 @@ fn check_slots(c: &Case, seed: u64) -> CaseOut {
         let mut w: Vec<u64> = (0..n as u64).map(|i| i * 3 + 1).collect();
         let exp: Vec<u64> = (0..n).map(|i| bit_reverse(i, n.trailing_zeros()) as u64 * 3 + 1).collect();
         if let Err(m) = guard(|| e.be.reverse_bits(&mut w)) {
-            fail!(format!("slots:reverse_bits:panic:{}", panic_class(&m)), format!("N={n}: reverse_bits on N entries returns"), m);
+            fail!(format!("{sec}:reverse_bits:panic:{}", panic_class(&m)), format!("N={n}: reverse_bits on N entries returns"), m);
         }
         if w != exp {
-            fail!("slots:reverse_bits:wrong", format!("N={n}: {}", fv(&exp)), fv(&w));
+            fail!(format!("{sec}:reverse_bits:wrong"), format!("N={n}: {}", fv(&exp)), fv(&w));
         }
         steps += 1;
     }
     let ninv = inv_mod_u64(n as u64 % t, t).unwrap();
     // unit vectors: closed form of the Lagrange basis
     for j in c.chunk(n) {
-        let rinv = pow_mod(e.roots[j], 2 * n as u64 - 1, t);
-        for (vi, &val) in [1u64, t - 1].iter().enumerate() {
-            let len = if vi == 0 { n } else { j + 1 };
+        let rinv = MulC::new(pow_mod(e.roots[j], 2 * n as u64 - 1, t), t);
+        let forms: Vec<(u64, usize)> = if !lite {
+            vec![(1, n), (t - 1, j + 1)]
+        } else if j % 2 == 0 {
+            vec![(1, n)]
+        } else {
+            vec![(t - 1, j + 1)]
+        };
+        for (val, len) in forms {
             let mut v = vec![0u64; len];
             v[j] = val;
             let p = tri!(encode_checked(&e, sec, "unit", &v));
@@ -388,12 +584,12 @@ fn check_slots(c: &Case, seed: u64) -> CaseOut {
             for k in 0..n {
                 if p.data()[k] != cexp {
                     fail!(
-                        "slots:encode:unit:wrong",
+                        format!("{sec}:encode:unit:wrong"),
                         format!("{:?} N={n} t={t} psi={}: encode({val} * e_{j}) coefficient {k} = {val} * N^-1 * r^-{k} = {cexp} with r = root of slot {j} = {}", e.sch, e.psi, e.roots[j]),
                         format!("{}; polynomial {}", p.data()[k], fv(p.data()))
                     );
                 }
-                cexp = mul_mod(cexp, rinv, t);
+                cexp = rinv.mul(cexp, t);
             }
             tri!(decode_checked(&e, sec, "unit", &p, &pad(&v, n), &format!("encode({val} * e_{j})")));
             steps += 2;
@@ -402,17 +598,49 @@ fn check_slots(c: &Case, seed: u64) -> CaseOut {
     // monomials c * X^k decode to c * r_i^k
     let kr = c.chunk(n);
     let mut pw: Vec<u64> = e.roots.iter().map(|&r| pow_mod(r, kr.start as u64, t)).collect();
+    let rc: Vec<MulC> = e.roots.iter().map(|&r| MulC::new(r, t)).collect();
+    // lite: the generic polynomial g_0 + .. + g_k X^k stored with k+1 coefficients decodes to the running sum of g_k * r_i^k. A chunk
+    // that does not start at k = 0 takes the library's decoding of the preceding prefix as its base (judged by the preceding chunk).
+    let g: Vec<u64> = if lite { gen_fill(seed, n, t, 10, n).iter().map(|&x| x.max(1)).collect() } else { vec![] };
+    let shown_g = fv(&g);
+    let bd = boundary(n);
+    let mut acc = vec![0u64; n];
+    if lite && kr.start > 0 {
+        acc = match guard(|| e.be.decode_new(&mk_plain(&g[..kr.start]))) {
+            Ok(d) if d.len() == n => d,
+            Ok(d) => fail!(format!("{sec}:decode:prefix:shape"), format!("N={n}: decode returns N values"), format!("{} values", d.len())),
+            Err(m) => fail!(format!("{sec}:decode:prefix:panic:{}", panic_class(&m)), format!("{:?} N={n} t={t}: decode of a {}-coefficient plaintext returns", e.sch, kr.start), m),
+        };
+    }
     for k in kr {
-        for (ci, &cv) in [1u64, t - 1].iter().enumerate() {
-            let len = if ci == 0 { k + 1 } else { n };
+        let forms: Vec<(u64, usize)> = if !lite {
+            vec![(1, k + 1), (t - 1, n)]
+        } else if bd.binary_search(&k).is_err() {
+            // lite: the prefix family below contains the monomial X^k as the difference of two consecutive prefixes
+            vec![]
+        } else if k % 2 == 0 {
+            vec![(1, k + 1)]
+        } else {
+            vec![(t - 1, k + 1)]
+        };
+        for (cv, len) in forms {
             let mut co = vec![0u64; len];
             co[k] = cv;
-            let exp: Vec<u64> = pw.iter().map(|&x| mul_mod(cv, x, t)).collect();
+            // c in {1, t-1}: c * x = x resp. -x (the roots are non-zero)
+            let exp: Vec<u64> = pw.iter().map(|&x| if cv == 1 { x } else { t - x }).collect();
             tri!(decode_checked(&e, sec, "monomial", &mk_plain(&co), &exp, &format!("{cv} * X^{k} (coeff_count {len})")));
             steps += 1;
         }
+        if lite {
+            let gk = MulC::new(g[k], t);
+            for i in 0..n {
+                acc[i] = add_lt(acc[i], gk.mul(pw[i], t), t);
+            }
+            tri!(decode_checked(&e, sec, "prefix", &mk_plain(&g[..=k]), &acc, &format!("the first {} coefficients of the polynomial {shown_g}", k + 1)));
+            steps += 1;
+        }
         for i in 0..n {
-            pw[i] = mul_mod(pw[i], e.roots[i], t);
+            pw[i] = rc[i].mul(pw[i], t);
         }
     }
     // the empty plaintext is the zero polynomial
@@ -421,17 +649,21 @@ fn check_slots(c: &Case, seed: u64) -> CaseOut {
         steps += 1;
     }
     // generic and extreme vectors: naive evaluation at the N roots
-    for (idx, (name, v)) in named_vectors(seed, n, t, n <= 1024).into_iter().enumerate() {
+    for (idx, (name, v)) in named_vectors(seed, n, t, lite || n <= 1024).into_iter().enumerate() {
         if !c.mine(idx) {
             continue;
         }
         let class = if name.starts_with("generic") { "generic" } else { "extreme" };
         let p = tri!(encode_checked(&e, sec, class, &v));
-        tri!(eval_checked(&e, sec, class, &p, &v));
+        if lite {
+            tri!(eval_fast_checked(&e, sec, class, &p, &v));
+        } else {
+            tri!(eval_checked(&e, sec, class, &p, &v));
+        }
         tri!(decode_checked(&e, sec, class, &p, &pad(&v, n), &format!("encode({name} = {})", fv(&v))));
         steps += 2;
     }
-    CaseOut::pass(steps > 0, outcome(&e, sec, 0), steps)
+    CaseOut::pass(steps > 0, outcome(&e, sec, lite as u64), steps)
 }
 
 // ---------------------------------------------------------------------------------------------
@@ -439,11 +671,20 @@ fn check_slots(c: &Case, seed: u64) -> CaseOut {
 // ---------------------------------------------------------------------------------------------
 
 fn check_lengths(c: &Case, seed: u64) -> CaseOut {
-    let sec = "lengths";
+    check_lengths_in(c, seed, "lengths", false)
+}
+
+/// `lite` (large N): one encode and one decode per length, both into a destination that is fresh / used with N entries / used with
+/// another length in turn
+fn check_lengths_in(c: &Case, seed: u64, sec: &str, lite: bool) -> CaseOut {
     let e = tri!(setup(c, seed, sec));
+    if !e.batching {
+        return CaseOut::skip("no batching for this plain modulus");
+    }
     let (n, t) = (e.n, e.t);
     let g = gen_fill(seed, n, t, 3, n).iter().map(|&x| if x == 0 { 1 } else { x }).collect::<Vec<u64>>();
     let ninv = inv_mod_u64(n as u64 % t, t).unwrap();
+    let shown_g = fv(&g);
     let mut steps = 0u64;
     // expected encoding, built incrementally from the closed-form unit encodings: encode(g[..len]) = encode(g[..len-1]) + g[len-1] * U_{len-1}.
     // A chunk that does not start at length 0 takes the library's encoding of the preceding length as its base (that one is judged by
@@ -456,18 +697,57 @@ fn check_lengths(c: &Case, seed: u64) -> CaseOut {
     for len in lr {
         if len > 0 {
             let j = len - 1;
-            let rinv = pow_mod(e.roots[j], 2 * n as u64 - 1, t);
+            let rinv = MulC::new(pow_mod(e.roots[j], 2 * n as u64 - 1, t), t);
             let mut cf = mul_mod(g[j], ninv, t);
             for k in 0..n {
-                expect[k] = add_mod(expect[k], cf, t);
-                cf = mul_mod(cf, rinv, t);
+                expect[k] = add_lt(expect[k], cf, t);
+                cf = rinv.mul(cf, t);
             }
         }
         let v = &g[..len];
+        if lite {
+            // the destination forms only (encode_new / decode_new are these on a fresh destination): the destination is fresh, junk of
+            // N entries or junk of another length, in turn
+            let mut p = match len % 3 {
+                0 => Plaintext::new(),
+                1 => mk_plain(&vec![t - 1; n]),
+                _ => mk_plain(&vec![t - 1; (len * 5) % n + 1]),
+            };
+            if let Err(m) = guard(|| e.be.encode(v, &mut p)) {
+                fail!(format!("{sec}:encode-into:panic:{}", panic_class(&m)), format!("{:?} N={n} t={t}: encode(len {len}) into a used plaintext returns", e.sch), m);
+            }
+            if let Some(pb) = meta_problem(&p, n, t) {
+                fail!(format!("{sec}:encode:short:shape"), format!("{:?} N={n} t={t}: encode(len {len}) has N coefficients < t, coefficient form", e.sch), pb);
+            }
+            if p.data().as_slice() != expect.as_slice() {
+                fail!(
+                    format!("{sec}:encode:short:wrong"),
+                    format!("{:?} N={n} t={t} psi={}: encode(first {len} entries of {}) = sum of closed-form unit encodings = {}", e.sch, e.psi, fv(&g), fv(&expect)),
+                    format!("{} ({})", fv(p.data()), first_diff(&expect, p.data()))
+                );
+            }
+            let mut dd = match len % 4 {
+                0 => vec![],
+                1 => vec![7u64; n],
+                _ => vec![7u64; (len * 3) % (2 * n + 1)],
+            };
+            if let Err(m) = guard(|| e.be.decode(&p, &mut dd)) {
+                fail!(format!("{sec}:decode-into:panic:{}", panic_class(&m)), format!("{:?} N={n} t={t}: decode of encode(len {len}) into a used vector returns", e.sch), m);
+            }
+            if dd != pad(v, n) {
+                fail!(
+                    format!("{sec}:decode:short:wrong"),
+                    format!("{:?} N={n} t={t}: decode of encode(first {len} entries of {shown_g}) = {}", e.sch, fv(&pad(v, n))),
+                    format!("{} ({})", fv(&dd), first_diff(&pad(v, n), &dd))
+                );
+            }
+            steps += 2;
+            continue;
+        }
         let p = tri!(encode_checked(&e, sec, "short", v));
         if p.data().as_slice() != expect.as_slice() {
             fail!(
-                "lengths:encode:short:wrong",
+                format!("{sec}:encode:short:wrong"),
                 format!("{:?} N={n} t={t} psi={}: encode(first {len} entries of {}) = sum of closed-form unit encodings = {}", e.sch, e.psi, fv(&g), fv(&expect)),
                 format!("{} ({})", fv(p.data()), first_diff(&expect, p.data()))
             );
@@ -475,23 +755,23 @@ fn check_lengths(c: &Case, seed: u64) -> CaseOut {
         // destination form on a dirty destination (junk of a different length)
         let mut dirty = mk_plain(&vec![t - 1; if len % 2 == 0 { n } else { (len % n).max(1) }]);
         if let Err(m) = guard(|| e.be.encode(v, &mut dirty)) {
-            fail!(format!("lengths:encode-into:panic:{}", panic_class(&m)), format!("{:?} N={n} t={t}: encode(len {len}) into a used plaintext returns", e.sch), m);
+            fail!(format!("{sec}:encode-into:panic:{}", panic_class(&m)), format!("{:?} N={n} t={t}: encode(len {len}) into a used plaintext returns", e.sch), m);
         }
         if dirty.data() != p.data() || dirty.coeff_count() != n || dirty.is_ntt_form() {
             fail!(
-                "lengths:encode-into:wrong",
+                format!("{sec}:encode-into:wrong"),
                 format!("{:?} N={n} t={t}: encode(len {len}) into a used plaintext = encode_new = {}", e.sch, fv(p.data())),
                 format!("{} coeff_count={}", fv(dirty.data()), dirty.coeff_count())
             );
         }
-        tri!(decode_checked(&e, sec, "short", &p, &pad(v, n), &format!("encode(first {len} entries of {})", fv(&g))));
+        tri!(decode_checked(&e, sec, "short", &p, &pad(v, n), &format!("encode(first {len} entries of {shown_g})")));
         // destination form of decode on a dirty destination
         let mut dd = vec![7u64; (len * 3) % (2 * n + 1)];
         if let Err(m) = guard(|| e.be.decode(&p, &mut dd)) {
-            fail!(format!("lengths:decode-into:panic:{}", panic_class(&m)), "decode into a used vector returns", m);
+            fail!(format!("{sec}:decode-into:panic:{}", panic_class(&m)), "decode into a used vector returns", m);
         }
         if dd != pad(v, n) {
-            fail!("lengths:decode-into:wrong", format!("{:?} N={n} t={t}: {}", e.sch, fv(&pad(v, n))), fv(&dd));
+            fail!(format!("{sec}:decode-into:wrong"), format!("{:?} N={n} t={t}: {}", e.sch, fv(&pad(v, n))), fv(&dd));
         }
         steps += 4;
     }
@@ -502,7 +782,7 @@ fn check_lengths(c: &Case, seed: u64) -> CaseOut {
         match guard(|| e.be.encode_new(&v)) {
             Err(_) => refusals += 1,
             Ok(p) => fail!(
-                "lengths:encode:too-long:accepted",
+                format!("{sec}:encode:too-long:accepted"),
                 format!("{:?} N={n} t={t}: encode of {len} values is refused", e.sch),
                 format!("returned a plaintext with {} coefficients", p.coeff_count())
             ),
@@ -510,7 +790,7 @@ fn check_lengths(c: &Case, seed: u64) -> CaseOut {
         let mut d = Plaintext::new();
         match guard(|| e.be.encode(&v, &mut d)) {
             Err(_) => refusals += 1,
-            Ok(()) => fail!("lengths:encode:too-long:accepted", format!("{:?} N={n} t={t}: encode of {len} values is refused", e.sch), "accepted (destination form)"),
+            Ok(()) => fail!(format!("{sec}:encode:too-long:accepted"), format!("{:?} N={n} t={t}: encode of {len} values is refused", e.sch), "accepted (destination form)"),
         }
         steps += 2;
     }
@@ -660,6 +940,22 @@ fn check_ring(c: &Case, seed: u64, unit_nmax: usize) -> CaseOut {
 // section `galois`
 // ---------------------------------------------------------------------------------------------
 
+/// m(X) -> m(X^g) modulo (X^N+1, t) for odd g and N coefficients < t: i -> i g mod 2N is a bijection of the exponents, so every
+/// coefficient of the image is one coefficient of m or its negative (the same definition as `pgalois` without a sum per term)
+fn pgalois_odd(a: &[u64], g: usize, t: u64) -> Vec<u64> {
+    let n = a.len();
+    let mut r = vec![0u64; n];
+    for i in 0..n {
+        let x = (i * g) % (2 * n);
+        if x < n {
+            r[x] = a[i];
+        } else {
+            r[x - n] = if a[i] == 0 { 0 } else { t - a[i] };
+        }
+    }
+    r
+}
+
 /// both rows rotated left by s (s may be negative), rows exchanged first if `swap`
 fn rotate_matrix(v: &[u64], s: isize, swap: bool) -> Vec<u64> {
     let n = v.len();
@@ -680,44 +976,69 @@ fn rotate_matrix(v: &[u64], s: isize, swap: bool) -> Vec<u64> {
 }
 
 fn check_galois(c: &Case, seed: u64) -> CaseOut {
-    let sec = "galois";
+    check_galois_in(c, seed, "galois", false)
+}
+
+/// `lite` (large N): every step's element is also compared with 3^(s mod N/2) mod 2N (the only element whose automorphism rotates
+/// both rows left by s) and applied to one of two unit-slot plaintexts (by the parity of s); the elements +-3^s (and the column swap) are applied to the
+/// all-distinct plaintext; the in-place / destination forms are compared at the first step / element of the chunk only.
+fn check_galois_in(c: &Case, seed: u64, sec: &str, lite: bool) -> CaseOut {
     let e = tri!(setup(c, seed, sec));
+    if !e.batching {
+        return CaseOut::skip("no batching for this plain modulus");
+    }
     let (n, t) = (e.n, e.t);
     let (h, m) = (n / 2, 2 * n);
     let eval = match guard(|| Evaluator::new(e.ctx.clone())) {
         Ok(x) => x,
-        Err(msg) => fail!(format!("galois:evaluator:{}", panic_class(&msg)), "Evaluator::new", msg),
+        Err(msg) => fail!(format!("{sec}:evaluator:{}", panic_class(&msg)), "Evaluator::new", msg),
     };
     let tool = e.ctx.key_context_data().unwrap();
     let tool = tool.verif_galois_tool();
     let mut steps = 0u64;
 
-    let mut vs: Vec<(&str, Vec<u64>)> = vec![("distinct", gen_distinct(seed, n, t)), ("generic-short", gen_fill(seed, n, t, 6, h + 1))];
-    let mut u = vec![0u64; n];
-    u[1 % n] = t - 1;
-    vs.push(("unit", u));
-    if n <= 64 {
-        vs.push(("max", vec![t - 1; n]));
-        vs.push(("generic", gen_fill(seed, n, t, 7, n)));
+    let mut vs: Vec<(&str, Vec<u64>)> = vec![];
+    if lite {
+        // 1 in row 0, column 1 (an input of length 2); t-1 in row 1, column N/2-2; all slots distinct
+        vs.push(("unit-a", vec![0, 1][..2.min(n)].to_vec()));
+        let mut u = vec![0u64; n];
+        u[h + h.saturating_sub(2)] = t - 1;
+        vs.push(("unit-b", u));
+        vs.push(("distinct", gen_distinct(seed, n, t)));
+    } else {
+        vs.push(("distinct", gen_distinct(seed, n, t)));
+        vs.push(("generic-short", gen_fill(seed, n, t, 6, h + 1)));
+        let mut u = vec![0u64; n];
+        u[1 % n] = t - 1;
+        vs.push(("unit", u));
+        if n <= 64 {
+            vs.push(("max", vec![t - 1; n]));
+            vs.push(("generic", gen_fill(seed, n, t, 7, n)));
+        }
     }
     let mut encs = vec![];
     for (_, v) in &vs {
         encs.push(tri!(encode_checked(&e, sec, "input", v)));
     }
+    let shown: Vec<String> = vs.iter().map(|(_, v)| fv(v)).collect();
+    let every: Vec<usize> = (0..vs.len()).collect();
+    let last_only: Vec<usize> = vec![vs.len() - 1];
+    let units_only: Vec<usize> = vec![0, 1];
 
-    // one Galois element on every input: polynomial == naive X -> X^g, decoded matrix == expected
-    let apply = |g: usize, s: isize, swap: bool, class: &str, what: &str, steps: &mut u64| -> Result<(), CaseOut> {
-        for ((name, v), p) in vs.iter().zip(&encs) {
+    // one Galois element on the inputs `which`: polynomial == naive X -> X^g, decoded matrix == expected
+    let apply = |g: usize, s: isize, swap: bool, class: &str, what: &str, which: &[usize], forms: bool, steps: &mut u64| -> Result<(), CaseOut> {
+        for &wi in which {
+            let ((name, v), p) = (&vs[wi], &encs[wi]);
             let r = guard(|| eval.apply_galois_plain_new(p, g)).map_err(|msg| {
-                CaseOut::fail(format!("galois:apply:{class}:panic:{}", panic_class(&msg)), format!("{:?} N={n} t={t}: apply_galois_plain(encode({name}), {g}) [{what}] returns", e.sch), msg)
+                CaseOut::fail(format!("{sec}:apply:{class}:panic:{}", panic_class(&msg)), format!("{:?} N={n} t={t}: apply_galois_plain(encode({name}), {g}) [{what}] returns", e.sch), msg)
             })?;
             if let Some(pb) = meta_problem(&r, n, t) {
-                return Err(CaseOut::fail(format!("galois:apply:{class}:shape"), format!("{:?} N={n} t={t}: element {g} [{what}] gives N coefficients < t", e.sch), pb));
+                return Err(CaseOut::fail(format!("{sec}:apply:{class}:shape"), format!("{:?} N={n} t={t}: element {g} [{what}] gives N coefficients < t", e.sch), pb));
             }
-            let pref = pgalois(p.data(), g, t);
+            let pref = if lite && g % 2 == 1 { pgalois_odd(p.data(), g, t) } else { pgalois(p.data(), g, t) };
             if r.data().as_slice() != pref.as_slice() {
                 return Err(CaseOut::fail(
-                    format!("galois:apply:{class}:polynomial-wrong"),
+                    format!("{sec}:apply:{class}:polynomial-wrong"),
                     format!("{:?} N={n} t={t}: m(X) -> m(X^{g}) [{what}] of {} = {}", e.sch, fv(p.data()), fv(&pref)),
                     format!("{} ({})", fv(r.data()), first_diff(&pref, r.data())),
                 ));
@@ -729,8 +1050,12 @@ fn check_galois(c: &Case, seed: u64) -> CaseOut {
                 class,
                 &r,
                 &exp,
-                &format!("apply_galois_plain(encode({name} = {}), {g}) [{what}: rows {}rotated left by {s}]", fv(v), if swap { "exchanged and " } else { "" }),
+                &format!("apply_galois_plain(encode({name} = {}), {g}) [{what}: rows {}rotated left by {s}]", shown[wi], if swap { "exchanged and " } else { "" }),
             )?;
+            *steps += 2;
+            if !forms {
+                continue;
+            }
             // the other two forms agree
             let mut a = p.clone();
             let mut b = Plaintext::new();
@@ -740,12 +1065,12 @@ fn check_galois(c: &Case, seed: u64) -> CaseOut {
             });
             if other.is_err() || a.data() != r.data() || b.data() != r.data() || a.coeff_count() != n || b.coeff_count() != n {
                 return Err(CaseOut::fail(
-                    format!("galois:apply:{class}:forms-differ"),
+                    format!("{sec}:apply:{class}:forms-differ"),
                     format!("{:?} N={n} t={t}: inplace / destination forms of apply_galois_plain(.., {g}) equal the _new form", e.sch),
                     format!("{:?} / {} / {}", other.err(), fv(a.data()), fv(b.data())),
                 ));
             }
-            *steps += 4;
+            *steps += 2;
         }
         Ok(())
     };
@@ -754,27 +1079,50 @@ fn check_galois(c: &Case, seed: u64) -> CaseOut {
     let mut refusals = 0u64;
     let hs = h as isize;
     // steps -(N/2-1)..N/2-1 are positions 0..N-2 of the chunked range
-    for s in c.chunk(n - 1).map(|x| x as isize - (hs - 1)) {
+    let my_steps: Vec<isize> = c.chunk(n - 1).map(|x| x as isize - (hs - 1)).collect();
+    let mut my_elts: Vec<usize> = vec![];
+    for (si, &s) in my_steps.iter().enumerate() {
         let g = match guard(|| tool.get_elt_from_step(s)) {
             Ok(g) => g,
-            Err(msg) => fail!(format!("galois:elt_from_step:panic:{}", panic_class(&msg)), format!("N={n}: get_elt_from_step({s}) returns (|s| < N/2)"), msg),
+            Err(msg) => fail!(format!("{sec}:elt_from_step:panic:{}", panic_class(&msg)), format!("N={n}: get_elt_from_step({s}) returns (|s| < N/2)"), msg),
         };
         steps += 1;
+        my_elts.push(g);
+        if lite {
+            // rotation by s (left for s > 0, right for s < 0) = 3^(s mod N/2); step 0 names the column swap 2N-1
+            let want = if s == 0 { m - 1 } else { pow_mod(3, s.rem_euclid(hs) as u64, m as u64) as usize };
+            if g != want {
+                fail!(
+                    format!("{sec}:elt_from_step:wrong"),
+                    format!("N={n}: get_elt_from_step({s}) = {}", if s == 0 { format!("2N-1 = {want}") } else { format!("3^({s} mod N/2) mod 2N = {want}") }),
+                    format!("{g}")
+                );
+            }
+        }
+        let forms = !lite || si == 0;
         if s == 0 {
             // documented convention (as in SEAL): step 0 names the column swap
-            tri!(apply(g, 0, true, "swap", "get_elt_from_step(0) = column swap", &mut steps));
+            tri!(apply(g, 0, true, "swap", "get_elt_from_step(0) = column swap", &every, forms, &mut steps));
         } else {
-            tri!(apply(g, s, false, "step", &format!("get_elt_from_step({s})"), &mut steps));
+            tri!(apply(g, s, false, "step", &format!("get_elt_from_step({s})"), if lite { &units_only[s.rem_euclid(2) as usize..s.rem_euclid(2) as usize + 1] } else { &every }, forms, &mut steps));
         }
         // the context's other tools agree (first level)
         let g2 = guard(|| e.ctx.first_context_data().unwrap().verif_galois_tool().get_elt_from_step(s));
         if g2.as_ref().ok() != Some(&g) {
-            fail!("galois:elt_from_step:levels-differ", format!("{g}"), format!("{g2:?}"));
+            fail!(format!("{sec}:elt_from_step:levels-differ"), format!("{g}"), format!("{g2:?}"));
+        }
+    }
+    // the list form names the same elements
+    if lite && !my_steps.is_empty() {
+        match guard(|| tool.get_elts_from_steps(&my_steps)) {
+            Ok(l) if l == my_elts => steps += 1,
+            Ok(l) => fail!(format!("{sec}:elts_from_steps:wrong"), format!("N={n}: get_elts_from_steps of {} steps = the elements of the single steps ({})", my_steps.len(), first_diff(&my_elts.iter().map(|&x| x as u64).collect::<Vec<_>>(), &l.iter().map(|&x| x as u64).collect::<Vec<_>>())), format!("{} elements", l.len())),
+            Err(msg) => fail!(format!("{sec}:elts_from_steps:panic:{}", panic_class(&msg)), format!("N={n}: get_elts_from_steps of {} steps with |s| < N/2 returns", my_steps.len()), msg),
         }
     }
     // column swap by its documented element 2N-1
     if c.first() {
-        tri!(apply(m - 1, 0, true, "swap", "2N-1 = column swap", &mut steps));
+        tri!(apply(m - 1, 0, true, "swap", "2N-1 = column swap", &every, true, &mut steps));
     }
     // out-of-range steps: refused, or a correct rotation modulo N/2
     for s in if c.first() { vec![hs, -hs, hs + 1] } else { vec![] } {
@@ -782,9 +1130,9 @@ fn check_galois(c: &Case, seed: u64) -> CaseOut {
             Err(_) => refusals += 1,
             Ok(g) => {
                 if g % 2 == 1 && g < m {
-                    tri!(apply(g, s, false, "step-out-of-range", &format!("get_elt_from_step({s})"), &mut steps));
+                    tri!(apply(g, s, false, "step-out-of-range", &format!("get_elt_from_step({s})"), &every, true, &mut steps));
                 } else {
-                    fail!("galois:elt_from_step:out-of-range:invalid-element", format!("N={n}: get_elt_from_step({s}) refuses or names a rotation by {s} mod N/2"), format!("{g}"));
+                    fail!(format!("{sec}:elt_from_step:out-of-range:invalid-element"), format!("N={n}: get_elt_from_step({s}) refuses or names a rotation by {s} mod N/2"), format!("{g}"));
                 }
             }
         }
@@ -796,18 +1144,19 @@ fn check_galois(c: &Case, seed: u64) -> CaseOut {
     for s in 0..h.max(1) {
         for (g, swap) in [(pw, false), (m - pw, true)] {
             if seen[g] {
-                fail!("galois:reference:group-enumeration", "+-3^s enumerate the odd residues once", format!("{g} twice"));
+                fail!(format!("{sec}:reference:group-enumeration"), "+-3^s enumerate the odd residues once", format!("{g} twice"));
             }
             seen[g] = true;
             if !sr.contains(&s) {
                 continue;
             }
-            tri!(apply(g, s as isize, swap, "element", &format!("{}3^{s} mod 2N", if swap { "-" } else { "" }), &mut steps));
+            let forms = !lite || s == sr.start;
+            tri!(apply(g, s as isize, swap, "element", &format!("{}3^{s} mod 2N", if swap { "-" } else { "" }), if lite { &last_only } else { &every }, forms, &mut steps));
         }
         pw = pw * 3 % m;
     }
     if (1..m).step_by(2).any(|g| !seen[g]) {
-        fail!("galois:reference:group-enumeration", "every odd residue is +-3^s", "some odd residue missed");
+        fail!(format!("{sec}:reference:group-enumeration"), "every odd residue is +-3^s", "some odd residue missed");
     }
     // (iii) get_elts_all = column swap and rotations by +-2^k, k < log2(N/2)
     if !c.first() {
@@ -815,7 +1164,7 @@ fn check_galois(c: &Case, seed: u64) -> CaseOut {
     }
     let got = match guard(|| tool.get_elts_all()) {
         Ok(x) => x,
-        Err(msg) => fail!(format!("galois:elts_all:panic:{}", panic_class(&msg)), "get_elts_all returns", msg),
+        Err(msg) => fail!(format!("{sec}:elts_all:panic:{}", panic_class(&msg)), "get_elts_all returns", msg),
     };
     steps += 1;
     let mut want = std::collections::BTreeSet::new();
@@ -828,7 +1177,7 @@ fn check_galois(c: &Case, seed: u64) -> CaseOut {
     }
     let gotset: std::collections::BTreeSet<usize> = got.iter().cloned().collect();
     if gotset != want {
-        fail!("galois:elts_all:wrong", format!("N={n}: {{2N-1}} and 3^(+-2^k) mod 2N for 2^k < N/2 = {want:?}"), format!("{got:?}"));
+        fail!(format!("{sec}:elts_all:wrong"), format!("N={n}: {{2N-1}} and 3^(+-2^k) mod 2N for 2^k < N/2 = {want:?}"), format!("{got:?}"));
     }
     CaseOut::pass(steps > 0, outcome(&e, sec, refusals), steps)
 }
@@ -988,6 +1337,206 @@ fn check_polynomial(c: &Case, seed: u64) -> CaseOut {
 }
 
 // ---------------------------------------------------------------------------------------------
+// section `big_ring`: sums and products at production degrees; the product modulo (X^N+1, t) is computed with the O(N log N)
+// reference transform (refmodel::ntt, validated against the by-definition transform in the self-test and, here, against the
+// naive product on the first pair)
+// ---------------------------------------------------------------------------------------------
+
+fn pointwise(a: &[u64], b: &[u64], t: u64) -> Vec<u64> {
+    a.iter().zip(b).map(|(&x, &y)| mul_mod(x, y, t)).collect()
+}
+
+fn check_big_ring(c: &Case, seed: u64, sec: &str) -> CaseOut {
+    let e = tri!(setup(c, seed, sec));
+    if !e.batching {
+        return CaseOut::skip("no batching for this plain modulus");
+    }
+    let (n, t, psi) = (e.n, e.t, e.psi);
+    let mut steps = 0u64;
+    // encode(u) (+|*) encode(w) decodes to the slot-wise result; fu, fw = reference transforms of the two encodings
+    let pair = |class: &str, u: &[u64], w: &[u64], pu: &Plaintext, pw: &Plaintext, fu: &[u64], fw: &[u64], steps: &mut u64| -> Result<(), CaseOut> {
+        let (up, wp) = (pad(u, n), pad(w, n));
+        let sum = padd(pu.data(), pw.data(), t);
+        decode_checked(&e, sec, &format!("sum:{class}"), &mk_plain(&sum), &slotwise(&up, &wp, t, false), &format!("encode({}) + encode({})", fv(u), fv(w)))?;
+        let prod = fast_intt(&pointwise(fu, fw, t), psi, t);
+        decode_checked(&e, sec, &format!("product:{class}"), &mk_plain(&prod), &slotwise(&up, &wp, t, true), &format!("encode({}) * encode({}) mod (X^N+1, t)", fv(u), fv(w)))?;
+        *steps += 2;
+        Ok(())
+    };
+    let vs = named_vectors(seed, n, t, true);
+    let mut encs = vec![];
+    let mut fts = vec![];
+    for (_, v) in &vs {
+        let p = tri!(encode_checked(&e, sec, "generic", v));
+        let f = fast_ntt(p.data(), psi, t);
+        tri!(slots_of_transform_checked(&e, sec, "generic", &p, &f, v, false));
+        fts.push(f);
+        encs.push(p);
+    }
+    // the reference product itself: fast == naive on (generic, max) (quadratic: at most N = 2048 unless the case asks for everything)
+    if c.first() && (n <= 2048 || c.full) {
+        let fast = fast_intt(&pointwise(&fts[0], &fts[1], t), psi, t);
+        let naive = pmul(encs[0].data(), encs[1].data(), t);
+        if fast != naive {
+            fail!(format!("{sec}:reference:fast-product-differs-from-naive"), format!("N={n} t={t}: {}", fv(&naive)), format!("{} ({})", fv(&fast), first_diff(&naive, &fast)));
+        }
+    }
+    let mut idx = 0usize;
+    for i in 0..vs.len() {
+        for j in 0..vs.len() {
+            idx += 1;
+            if !c.mine(idx - 1) {
+                continue;
+            }
+            tri!(pair("generic", &vs[i].1, &vs[j].1, &encs[i], &encs[j], &fts[i], &fts[j], &mut steps));
+        }
+    }
+    // unit slots: generic x e_j, e_j x e_j, e_j x e_j' (j' the next slot of the list): j over the boundary slots or over all slots
+    let slots: Vec<usize> = if c.full { (0..n).collect() } else { boundary(n) };
+    let unit = |j: usize| -> (Vec<u64>, u64) {
+        let val = if j % 2 == 0 { 1 } else { t - 1 };
+        let mut u = vec![0u64; if j % 4 < 2 { j + 1 } else { n }];
+        u[j] = val;
+        (u, val)
+    };
+    for (bi, &j) in slots.iter().enumerate() {
+        idx += 1;
+        if !c.mine(idx - 1) {
+            continue;
+        }
+        let (u, _) = unit(j);
+        let pu = tri!(encode_checked(&e, sec, "unit", &u));
+        let fu = fast_ntt(pu.data(), psi, t);
+        tri!(slots_of_transform_checked(&e, sec, "unit", &pu, &fu, &u, false));
+        tri!(pair("generic-unit", &vs[0].1, &u, &encs[0], &pu, &fts[0], &fu, &mut steps));
+        if !c.full || bi % 64 == 0 {
+            let (w, _) = unit(slots[(bi + 1) % slots.len()]);
+            let pw = tri!(encode_checked(&e, sec, "unit", &w));
+            let fw = fast_ntt(pw.data(), psi, t);
+            tri!(slots_of_transform_checked(&e, sec, "unit", &pw, &fw, &w, false));
+            tri!(pair("unit", &u, &u, &pu, &pu, &fu, &fu, &mut steps));
+            tri!(pair("unit", &u, &w, &pu, &pw, &fu, &fw, &mut steps));
+        }
+    }
+    CaseOut::pass(steps > 0, outcome(&e, sec, c.full as u64), steps)
+}
+
+// ---------------------------------------------------------------------------------------------
+// section `big_polynomial`: coefficient encoding of EVERY length 0..N at production degrees
+// ---------------------------------------------------------------------------------------------
+
+fn check_big_polynomial(c: &Case, seed: u64, sec: &str) -> CaseOut {
+    let e = tri!(setup(c, seed, sec));
+    let (n, t) = (e.n, e.t);
+    let mut steps = 0u64;
+    let alphabet = [0u64, 1, t - 1, t, t + 1, u64::MAX];
+    // unreduced 64-bit values (every third one below t)
+    let raw: Vec<u64> = (0..n).map(|i| { let x = h64(&(seed, "c11-raw", n, t, i)); if i % 3 == 0 { x % t } else { x } }).collect();
+    for len in c.chunk(n + 1) {
+        // the generic values with the alphabet (cycling with the length) at the first, middle and last position
+        let mut v = raw[..len].to_vec();
+        for (pi, pos) in [0, len / 2, len.saturating_sub(1)].into_iter().enumerate() {
+            if pos < len {
+                v[pos] = alphabet[(len + 2 * pi) % alphabet.len()];
+            }
+        }
+        let exp: Vec<u64> = v.iter().map(|&x| x % t).collect();
+        // new form and destination form on a used plaintext of another length
+        let mut dirty = mk_plain(&vec![t - 1; if len % 2 == 0 { n } else { (len * 7 + 1) % n }]);
+        let p = match guard(|| { e.be.encode_polynomial(&v, &mut dirty); e.be.encode_polynomial_new(&v) }) {
+            Ok(p) => p,
+            Err(m) => fail!(format!("{sec}:encode:panic:{}", panic_class(&m)), format!("{:?} N={n} t={t}: encode_polynomial({}) returns", e.sch, fv(&v)), m),
+        };
+        for (form, q) in [("new", &p), ("into", &dirty)] {
+            if q.data().as_slice() != exp.as_slice() || q.coeff_count() != len || q.is_ntt_form() {
+                fail!(
+                    format!("{sec}:encode:wrong"),
+                    format!("{:?} N={n} t={t}: encode_polynomial({}) [{form}] = each coefficient mod t = {}", e.sch, fv(&v), fv(&exp)),
+                    format!("{} coeff_count={} ({})", fv(q.data()), q.coeff_count(), first_diff(&exp, q.data()))
+                );
+            }
+        }
+        let d = match guard(|| {
+            let mut d = vec![5u64; (len * 5 + 3) % (2 * n + 1)];
+            e.be.decode_polynomial(&p, &mut d);
+            (d, e.be.decode_polynomial_new(&p))
+        }) {
+            Ok(d) => d,
+            Err(m) => fail!(format!("{sec}:decode:panic:{}", panic_class(&m)), format!("{:?} N={n} t={t}: decode_polynomial of a {len}-coefficient plaintext returns", e.sch), m),
+        };
+        if d.0 != exp || d.1 != exp {
+            fail!(
+                format!("{sec}:decode:wrong"),
+                format!("{:?} N={n} t={t}: decode_polynomial(encode_polynomial({})) = {}", e.sch, fv(&v), fv(&exp)),
+                format!("{} ({}) / {} ({})", fv(&d.0), first_diff(&exp, &d.0), fv(&d.1), first_diff(&exp, &d.1))
+            );
+        }
+        steps += 4;
+    }
+    // too long
+    let mut refusals = 0u64;
+    for len in if c.first() { vec![n + 1, 2 * n] } else { vec![] } {
+        match guard(|| e.be.encode_polynomial_new(&vec![1u64; len])) {
+            Err(_) => refusals += 1,
+            Ok(p) => fail!(
+                format!("{sec}:encode:too-long:accepted"),
+                format!("{:?} N={n} t={t}: encode_polynomial of {len} coefficients is refused", e.sch),
+                format!("returned a plaintext with {} coefficients", p.coeff_count())
+            ),
+        }
+        steps += 1;
+    }
+    CaseOut::pass(steps > 0, outcome(&e, sec, refusals), steps)
+}
+
+// ---------------------------------------------------------------------------------------------
+// section `primes`: the whole alphabet of the other sections at tiny N below chains of 1..18 coefficient primes
+// ---------------------------------------------------------------------------------------------
+
+fn check_primes(c: &Case, seed: u64) -> CaseOut {
+    let sec = "primes";
+    let mut steps = 0u64;
+    let mut oc = vec![];
+    let runs: Vec<Box<dyn Fn() -> CaseOut>> = vec![
+        Box::new(|| check_slots_in(c, seed, sec, false)),
+        Box::new(|| check_slots_in(c, seed, sec, true)),
+        Box::new(|| check_lengths_in(c, seed, sec, false)),
+        Box::new(|| check_lengths_in(c, seed, sec, true)),
+        Box::new(|| check_galois_in(c, seed, sec, false)),
+        Box::new(|| check_galois_in(c, seed, sec, true)),
+        Box::new(|| check_big_ring(c, seed, sec)),
+        Box::new(|| check_big_polynomial(c, seed, sec)),
+    ];
+    for r in runs {
+        let o = r();
+        match o.verdict {
+            Verdict::Pass => {
+                steps += o.steps;
+                oc.push(o.outcome);
+            }
+            _ => return o,
+        }
+    }
+    // every level of the chain names the same Galois elements
+    let ctx = c.spec.context();
+    let (n, mut levels) = (c.spec.n, 0u64);
+    let key = ctx.key_context_data().unwrap();
+    let mut cur = ctx.first_context_data();
+    while let Some(cd) = cur {
+        for s in -((n / 2) as isize - 1)..(n / 2) as isize {
+            let (a, b) = (guard(|| key.verif_galois_tool().get_elt_from_step(s)), guard(|| cd.verif_galois_tool().get_elt_from_step(s)));
+            if a.is_err() || a != b {
+                fail!("primes:elt_from_step:levels-differ", format!("N={n} step {s}: the element of the key level, {a:?}"), format!("{b:?} at chain index {}", cd.chain_index()));
+            }
+            steps += 1;
+        }
+        levels += 1;
+        cur = cd.next_context_data();
+    }
+    CaseOut::pass(true, h64(&(oc, levels)), steps)
+}
+
+// ---------------------------------------------------------------------------------------------
 
 pub fn sections(cfg: &RunCfg) -> Vec<Box<dyn AnySection>> {
     let seed = cfg.seed;
@@ -1027,11 +1576,11 @@ pub fn sections(cfg: &RunCfg) -> Vec<Box<dyn AnySection>> {
             if n == 4 {
                 for a in 0..t {
                     for b in 0..t {
-                        ex.push(Case { spec: spec.clone(), prefix: vec![a, b], part: 0, parts: 1 });
+                        ex.push(Case { spec: spec.clone(), prefix: vec![a, b], part: 0, parts: 1, full: false });
                     }
                 }
             } else {
-                ex.push(Case { spec, prefix: vec![], part: 0, parts: 1 });
+                ex.push(Case { spec, prefix: vec![], part: 0, parts: 1, full: false });
             }
         }
     }
@@ -1070,6 +1619,71 @@ pub fn sections(cfg: &RunCfg) -> Vec<Box<dyn AnySection>> {
             &format!("{bound_nt} + t in {{7, 16, 2^59}} (no batching): encode_polynomial / decode_polynomial, values {{0,1,t-1,t,t+1,2^64-1}} at every position (5 positions beyond N=1024) of every length 0..N (7 lengths beyond N=64), constant vectors, lengths N+1 and 2N refused"),
             specs(1, kmax, &[7, 16, 1 << 59], parts_polynomial).into_iter(),
             move |c: &Case| check_polynomial(c, seed),
+        )
+        .deadline(dl),
+    );
+    // ---- production sizes: N = 128..8192 in BOTH tiers, structured O(N) families per parameter set ----
+    let four = thorough;
+    let bound_big = format!(
+        "N = 2^k, k = 7..13 x (scheme, t) in {{(BFV, smallest prime = 1 mod 2N), (BGV, third largest 60-bit prime = 1 mod 2N){}}}",
+        if four { ", (BGV, smallest), (BFV, 60-bit)" } else { "" }
+    );
+    // quick tier: big_slots and big_galois run one of the two combinations at N = 4096 and the other one at N = 8192
+    let thin_slots = if four { "" } else { " [N = 4096: (BFV, smallest) only, N = 8192: (BGV, 60-bit) only]" };
+    let thin_galois = if four { "" } else { " [N = 4096: (BGV, 60-bit) only, N = 8192: (BFV, smallest) only]" };
+    v.push(
+        E1::new(
+            "big_slots",
+            &format!("{bound_big}{thin_slots}: every unit slot j (value 1, N inputs / t-1, j+1 inputs, alternating) against the closed form and decoded; the generic polynomial of EVERY stored length k+1 decoded against sum_k g_k r_i^k (running sum), the monomials X^k (coefficient 1 / t-1, k+1 coefficients stored) for k at the boundary indices; 9 generic/extreme vectors evaluated at all N slot roots with the fast reference transform and at the boundary slots (0, 1, 2^k-1, 2^k, 2^k+1, N/2-1..N/2+1, N-2, N-1) by Horner's rule; reverse_bits"),
+            big_specs(7, 13, four, &[], parts_big, 0, 2).into_iter(),
+            move |c: &Case| check_slots_in(c, seed, "big_slots", true),
+        )
+        .deadline(dl),
+    );
+    v.push(
+        E1::new(
+            "big_lengths",
+            &format!("{bound_big}: every input length 0..N of a generic non-zero vector: encode into a destination (fresh / used with N entries / used with another length, in turn) == running sum of closed-form unit encodings, decode of it into a destination (empty / N entries / another length) == the input zero-padded; lengths N+1 and 2N refused"),
+            big_specs(7, 13, four, &[], parts_big, 0, 0).into_iter(),
+            move |c: &Case| check_lengths_in(c, seed, "big_lengths", true),
+        )
+        .deadline(dl),
+    );
+    v.push(
+        E1::new(
+            "big_galois",
+            &format!("{bound_big}{thin_galois}: every step s in -(N/2-1)..N/2-1: get_elt_from_step(s) == 3^(s mod N/2) mod 2N (2N-1 for s = 0) at the key and the first level, get_elts_from_steps, apply_galois_plain of that element on a unit-slot plaintext (1 in row 0 column 1 for even s, t-1 in row 1 column N/2-2 for odd s) == naive X -> X^g, decoded == both rows rotated left by s; every odd element +-3^s on the all-distinct plaintext == naive, decoded == rotation by s (and row exchange for -3^s); column swap 2N-1; steps +-N/2, N/2+1; get_elts_all"),
+            big_specs(7, 13, four, &[], parts_big, 0, 1).into_iter(),
+            move |c: &Case| check_galois_in(c, seed, "big_galois", true),
+        )
+        .deadline(dl),
+    );
+    let ring_full = if thorough { 8192 } else { 256 };
+    v.push(
+        E1::new(
+            "big_ring",
+            &format!("{bound_big}: sum and product modulo (X^N+1, t) (fast reference transform; == naive product on one pair for N <= 2048 and wherever all slots are used) of encodings decode slot-wise: all 81 ordered pairs of 9 generic/extreme vectors; generic x unit slot j (value 1 / t-1, j+1 / N inputs), e_j x e_j, e_j x e_j' for j over ALL slots (N <= {ring_full}; the unit x unit pairs at every 64th slot) resp. the boundary slots 0, 1, 2^k-1, 2^k, 2^k+1, N/2-1..N/2+1, N-2, N-1"),
+            big_specs(7, 13, four, &[], parts_big_ring, ring_full, 0).into_iter(),
+            move |c: &Case| check_big_ring(c, seed, "big_ring"),
+        )
+        .deadline(dl),
+    );
+    let poly_extra: &[u64] = if thorough { &[7, 16, 1 << 59, 65537 * 65537] } else { &[7, 1 << 59] };
+    v.push(
+        E1::new(
+            "big_polynomial",
+            &format!("{bound_big} + t in {:?} (no batching, scheme alternating): encode_polynomial (new form and into a used plaintext of another length) / decode_polynomial (both forms, used destination) of EVERY length 0..N of unreduced 64-bit values with {{0,1,t-1,t,t+1,2^64-1}} (cycling with the length) at the first, middle and last position; lengths N+1 and 2N refused", poly_extra),
+            big_specs(7, 13, four, poly_extra, parts_big, 0, 0).into_iter(),
+            move |c: &Case| check_big_polynomial(c, seed, "big_polynomial"),
+        )
+        .deadline(dl),
+    );
+    v.push(
+        E1::new(
+            "primes",
+            "N in {8, 16} x chains of 1..18 sixty-bit coefficient primes x (BFV, smallest batching t), (BGV, 60-bit t): the complete alphabets of slots, lengths, galois (both variants), big_ring (all slots), big_polynomial; get_elt_from_step of every step at every level of the chain == key level",
+            prime_chain_specs().into_iter(),
+            move |c: &Case| check_primes(c, seed),
         )
         .deadline(dl),
     );
